@@ -113,8 +113,10 @@ def run(ctx):
                                 open(p + "_index", "wb").write(index)
                             stream = None
                             if via in ("stream", "rawstream"):
-                                if with_index:
-                                    continue      # an index beside a stream does not exist
+                                if with_index and via == "stream":
+                                    continue      # an in-memory stream has no file name an index could sit beside
+                                # rawstream + with_index: the caller's stream is a real file on disk and a .tdms_index file sits beside
+                                # it; whatever the library does with that index, the caller's stream stays the caller's
                                 # the caller's own stream: an in-memory one, or an unbuffered OS-level file object
                                 stream = io.BytesIO(data) if via == "stream" else io.FileIO(p, "rb")
                                 own_streams.append(stream)
@@ -288,7 +290,7 @@ def run(ctx):
     return dict(violations=violations[:5], disagreements=disagreements[:20], notes=["observation: " + o for o in obs[:4]],
                 coverage=dict(evaluations=stats["steps"] + stats["writer"], distinct_nontrivial=len(distinct),
                               rule="fault cases per generated file: valid, bad tag, metadata cut at a random offset, unknown type code, mismatching / stale longer / stale shorter / garbage index, data cut beside a complete index, index only, index handed over as a caller stream; "
-                                   "x {path, stream} x {index beside the file} x {read, read_metadata, open}; for open: reads, close, reads after close (must raise), "
+                                   "x {path, in-memory stream, raw OS-level stream of a file (also with an index file beside it)} x {index beside the file} x {read, read_metadata, open}; for open: reads, close, reads after close (must raise), "
                                    "repeated close, with-block; TdmsWriter x {stream, stream+index stream, path, path+index} x {normal, exception inside the block}; "
                                    "descriptors measured through /proc/self/fd without gc.collect(); distinct_nontrivial = distinct (case, source, index, api) combinations",
                               samples=[dict(case="bad tag", via="path", api="read")], counts=stats))
